@@ -227,6 +227,15 @@ class Sign(Contract):
         m = request["message"]
         return implies(not ci(old) and g.nx > old.g.nx,
                        msg_hash(m) or (jhas(request, "auth") and (msg_legacy(m) or msg_segwit(m))))
+    # ---- C14 (last sentence): a transaction get_unsigned_tx refuses (undecodable, or an input with an empty script) is
+    # answered -102 and nothing has been sent.  `msg` is bound only once both validations of the authorized branch
+    # passed; a return with `msg` bound and `unsigned_btc_tx` unbound is the `except Exception` of that call.
+    @only("C14")
+    def refused_transaction_is_answered_minus_102_without_any_exchange(result, g, old, msg=None):
+        if is_none(msg):
+            return True
+        return result[0] == -102 and ghost_same_log(g, old.g)
+    at_exit_if_unbound = [("unsigned_btc_tx", refused_transaction_is_answered_minus_102_without_any_exchange)]
     @only("C02")
     def authorized_needs_auth(result, request):
         return implies(not msg_hash(request["message"]) and not jhas(request, "auth"), result[0] == -101)
